@@ -38,6 +38,9 @@ def generate(rng):
             if op.get('api') == 'expect_loop':
                 op['api'] = 'expect'
             op['async'] = (rng.random() < 0.6) if mixed else True
+            if op['async']:
+                for pp in op.get('pats', []):
+                    pp.pop('ot', None)       # (awaited calls are recorded with the list the harness built, not the coerced one)
             if op.get('to', -1) is None and rng.random() < 0.5:
                 op['to'] = 0.03
             if op['async'] and rng.random() < 0.15:
